@@ -152,7 +152,7 @@ def fmtPipes (ps : List PipeFields) : String :=
 def stepLex (cs m toks : String) : String :=
   match bool? cs, parseMapping m, (splitList toks ";").mapM parseLTok with
   | some cs, some m, some toks =>
-    match parseSeqQL ⟨SV.Extracted.C12.seqqlDefaultPanics, cs, m⟩ SV.Extracted.C12.seqqlMaxNest toks with
+    match parseSeqQL ⟨SV.Extracted.C12.seqqlDefaultPanics, cs, m, SV.Extracted.C12.legacyRangeLowercases⟩ SV.Extracted.C12.seqqlMaxNest toks with
     | .ok (t, ps) => s!"ok {",".intercalate (fmtTreeL t)} {fmtPipes ps}"
     | .err => "err"
     | .panic => "panic"
@@ -164,7 +164,7 @@ def stepLex (cs m toks : String) : String :=
 def stepLegacy (cs m rs : String) : String :=
   match bool? cs, parseMapping m, (splitList rs ".").mapM parseRn with
   | some cs, some m, some rs =>
-    match parseQueryRunes ⟨SV.Extracted.C12.legacyDefaultPanics, cs, m⟩ SV.Extracted.C12.legacyMaxNest rs with
+    match parseQueryRunes ⟨SV.Extracted.C12.legacyDefaultPanics, cs, m, SV.Extracted.C12.legacyRangeLowercases⟩ SV.Extracted.C12.legacyMaxNest rs with
     | .ok t => s!"ok {",".intercalate (fmtTreeL t)}"
     | .err => "err"
     | .panic => "panic"
@@ -174,7 +174,7 @@ def stepLegacy (cs m rs : String) : String :=
 def stepAgg (cs rs : String) : String :=
   match bool? cs, (splitList rs ".").mapM parseRn with
   | some cs, some rs =>
-    match parseAggFilter SV.Extracted.C12.legacyDefaultPanics cs rs with
+    match parseAggFilter SV.Extracted.C12.legacyDefaultPanics SV.Extracted.C12.legacyRangeLowercases cs rs with
     | .ok (some l) => s!"ok {fmtLeaf l}"
     | .ok none => "ok -"
     | .err => "err"
